@@ -159,7 +159,7 @@ def fe_fields_cache(R):
     add = ms.get("_add")
     R.need(add is not None, "ModelCacheMixin._add not found")
     written = set()
-    for a, kind, node, val in util.attr_writes(add, "self"):
+    for a, kind, node, val in util.attr_writes_deep(add, ms, "self"):  # incl. private helpers _add calls
         if kind == "assign" or (kind == "mutate" and node.func.attr == "clear"):
             written.add(a)
     for f in sorted(fields):
